@@ -33,10 +33,7 @@ T_Name == /\ IsEv("name") /\ NoPanic /\ UNCHANGED devs
                  m == FromWire(e.a, 1)
                  n == FromWire(e.b, 1)
              IN /\ m.ok /\ n.ok
-                /\ Obs4(e) = [eq |-> NameEq(m.name, n.name), cmp |-> CanonNameCmp(m.name, n.name),
-                              composed |-> NameComposedCmp(m.name, n.name),
-                              lcomposed |-> NameLowerComposedCmp(m.name, n.name),
-                              hash_ok |-> TRUE, issues |-> <<>>]
+                /\ Obs4(e) = NamePairExp(m.name, n.name)
 
 T_CharStr == /\ IsEv("charstr") /\ NoPanic /\ UNCHANGED devs
              /\ LET e == Rec[l] IN
@@ -90,7 +87,49 @@ T_Record ==
                      hash_ok |-> e.hash_ok, hash_ok_hq |-> e.hash_ok_hq, issues |-> e.issues]
            IN Matches(o, RecExp(r, s), RecDev(r, s))
 
+\* a name through a carrier (Order.tla): the recorded answers are those of
+\* the denoted name, whatever the carrier
+T_Carrier == /\ IsEv("carrier") /\ NoPanic /\ UNCHANGED devs
+             /\ LET e == Rec[l] IN
+                /\ WfAbs(e.c)
+                /\ CarrierLaw(e.c)
+                /\ [compose |-> e.compose, canon |-> e.canon, len |-> e.len, labels |-> e.labels,
+                    rrsig_labels |-> e.rrsig_labels, is_root |-> e.is_root,
+                    hash_ok |-> e.hash_ok, issues |-> e.issues] = NameObs(Denote(e.c))
+T_CPair == /\ IsEv("cpair") /\ NoPanic /\ UNCHANGED devs
+           /\ LET e == Rec[l] IN
+              /\ WfAbs(e.a) /\ WfAbs(e.b)
+              /\ Obs4(e) = NamePairExp(Denote(e.a), Denote(e.b))
+
+CrdObs(e, free) ==
+  [compose |-> e.compose, canon_wire |-> e.canon_wire, rdlen |-> e.rdlen,
+   eq |-> IF free THEN Free ELSE e.eq, canon |-> e.canon, issues |-> e.issues]
+T_Crdata ==
+  /\ IsEv("crdata") /\ NoPanic /\ UNCHANGED devs
+  /\ LET e == Rec[l]
+         x == MnemonicOf(e.rtype)
+         ra == ParseRd(x, e.a)
+         rb == ParseRd(x, e.b)
+     IN /\ ra.ok /\ rb.ok                        \* the recorder only carries what the layout reads
+        /\ Carries(x, ra.val, e.cs)
+        /\ CarriedRdLawM(x, ra.val, e.cs, {})
+        /\ Matches(CrdObs(e, RdEqFree(x, ra.val, rb.val)),
+                   CrdExp(x, ra.val, rb.val), CrdDev(x, ra.val, rb.val))
+T_Crecord ==
+  /\ IsEv("crecord") /\ NoPanic /\ UNCHANGED devs
+  /\ LET e == Rec[l]
+         r == RecOf(e.a)
+         s == RecOf(e.b)
+     IN /\ r.ok /\ s.ok
+        /\ WfAbs(e.oc) /\ Denote(e.oc) = r.owner /\ Carries(r.t, r.val, e.cs)
+        /\ CarriedRecLawM(r, e.oc, e.cs, {})
+        /\ LET o == [compose |-> e.compose, canon_wire |-> e.canon_wire, hdr_canon |-> e.hdr_canon,
+                     canon |-> IF RecCanonPinned(r, s) THEN e.canon ELSE Free,
+                     issues |-> e.issues]
+           IN o = CrecExp(r, s)
+
 TNext == T_Devs \/ T_Label \/ T_Name \/ T_CharStr \/ T_Rdata \/ T_Record
+           \/ T_Carrier \/ T_CPair \/ T_Crdata \/ T_Crecord
 TSpec == TInit /\ [][TNext]_tvars
 
 Accepted ==
